@@ -6,7 +6,7 @@
    not disturb its neighbours.  By induction on the list of cues. *)
 From Coq Require Import QArith.
 From TT Require Import Base.Prelude Gen.VttTables Model.VttTokenizer Model.VttReader Spec.VttSpec.
-From TT Require Import Proofs.C11.Time.
+From TT Require Import Proofs.C11.Time Proofs.C11.Region.
 Local Open Scope Z_scope.
 
 Record rcue := mkRcue {
@@ -353,6 +353,216 @@ Proof.
   destruct cs as [|c cs]; [reflexivity|].
   cbn [run_lines rs_state set_state]. change (looking [10] _) with (mkR LLooking [] [] None false None).
   apply (run_cues (c :: cs) (mkR LLooking [] [] None false None)); [discriminate|exact W|reflexivity].
+Qed.
+
+(* ================================================================ blocks: cues and what must be skipped
+   A WebVTT file is a header and blocks separated by blank lines.  Besides cue blocks there are blocks the reader
+   must skip: comments (first line starts with "NOTE "), style blocks (first line starts with "STYLE") - whatever
+   non-blank lines follow, lines holding "-->" included - and any other block none of whose lines holds "-->"
+   (REGION blocks, a bare NOTE line with a comment below it, stray identifiers).  For EVERY such line list the line
+   machine leaves regions and paragraphs untouched and resumes looking for the next block. *)
+Inductive rblock := RCue (c : rcue) | RSkip (ls : list text).       (* lines without their terminator *)
+
+Definition note_or_style (l : text) : bool := starts_with s_NOTE_ (nl l) || starts_with s_STYLE (nl l).
+Fixpoint skip_lines_ok (ls : list text) : bool :=
+  match ls with
+  | [] => true
+  | l :: ls' =>
+    line_ok l && (if note_or_style l then forallb line_ok ls' else negb (contains s_arrow (nl l)) && skip_lines_ok ls')
+  end.
+Definition rblock_ok (b : rblock) : Prop :=
+  match b with RCue c => rcue_ok c | RSkip ls => ls <> [] /\ skip_lines_ok ls = true end.
+
+Definition block_lines (b : rblock) : list text := match b with RCue c => cue_lines c | RSkip ls => map nl ls end.
+Definition file_lines_b (hdr : text) (bs : list rblock) : list text :=
+  nl (s_WEBVTT ++ hdr) :: flat_map (fun b => [10] :: block_lines b) bs.
+Definition file_text_b (hdr : text) (bs : list rblock) : text := concat (file_lines_b hdr bs).
+Definition cues_of_blocks (bs : list rblock) : list rcue :=
+  flat_map (fun b => match b with RCue c => [c] | RSkip _ => [] end) bs.
+
+(* what follows a block: the blank separator line, or the end of the file *)
+Definition after_block (t : option text) (rest : list (option text)) (s : rstate) : outcome :=
+  match t with None => OkDoc (rs_regions s) (rs_paras s) | Some _ => run_lines rest s end.
+
+Lemma set_looking s : rs_state s = LLooking -> forall st, set_state LLooking (set_state st s) = s.
+Proof. destruct s as [st0 rg ps cur att txt]. cbn. intros -> st. reflexivity. Qed.
+
+(* inside a comment or style block every non-blank line is skipped *)
+Lemma run_note_lines : forall ls t rest s, (rs_state s = LNote \/ rs_state s = LStyle) -> terminator t ->
+  forallb line_ok ls = true ->
+  run_lines (map Some (map nl ls) ++ t :: rest) s = after_block t rest (set_state LLooking s).
+Proof.
+  induction ls as [|l ls IH]; intros t rest s St T H.
+  - cbn [map app run_lines]. destruct St as [-> | ->]; destruct T as [-> | ->]; reflexivity.
+  - cbn [forallb] in H. apply andb_true_iff in H as [Hl Hls]. unfold line_ok in Hl. apply andb_true_iff in Hl as [_ Hl].
+    apply negb_true_iff in Hl. cbn [map app run_lines].
+    destruct St as [E | E]; rewrite E, Hl; (rewrite IH; [reflexivity|rewrite E; auto|exact T|exact Hls]).
+Qed.
+
+Lemma run_skip : forall ls t rest s, skip_lines_ok ls = true -> terminator t -> rs_state s = LLooking ->
+  run_lines (map Some (map nl ls) ++ t :: rest) s = after_block t rest s.
+Proof.
+  induction ls as [|l ls IH]; intros t rest s H T L.
+  - cbn [map app run_lines]. rewrite L. destruct T as [-> | ->]; [reflexivity|].
+    cbn [after_block]. change (looking [10] s) with s. reflexivity.
+  - cbn [skip_lines_ok] in H. apply andb_true_iff in H as [Hl H]. unfold line_ok in Hl. apply andb_true_iff in Hl as [_ Hl].
+    apply negb_true_iff in Hl. cbn [map app run_lines]. rewrite L. unfold looking. rewrite Hl.
+    unfold note_or_style in H.
+    destruct (starts_with s_NOTE_ (nl l)) eqn:N.
+    + cbn [orb] in H. rewrite run_note_lines; [|left; reflexivity|exact T|exact H].
+      rewrite set_looking by exact L. reflexivity.
+    + destruct (starts_with s_STYLE (nl l)) eqn:St.
+      * cbn [orb] in H. rewrite run_note_lines; [|right; reflexivity|exact T|exact H].
+        rewrite set_looking by exact L. reflexivity.
+      * cbn [orb] in H. apply andb_true_iff in H as [Ha H]. rewrite Ha. apply IH; assumption.
+Qed.
+
+Fixpoint items_of_b (bs : list rblock) : list (option text) :=
+  match bs with
+  | [] => [None]
+  | b :: bs' => map Some (block_lines b) ++ match bs' with [] => [None] | _ => Some [10] :: items_of_b bs' end
+  end.
+
+Lemma run_blocks : forall bs s, bs <> [] -> Forall rblock_ok bs -> rs_state s = LLooking ->
+  run_lines (items_of_b bs) s = read_cues (cues_of_blocks bs) (rs_regions s) (rs_paras s).
+Proof.
+  induction bs as [|b bs IH]; intros s Hne W L; [congruence|]. inversion W as [|? ? Hb Hbs]; subst.
+  cbn [items_of_b cues_of_blocks flat_map]. fold (cues_of_blocks bs).
+  destruct b as [c|ls]; cbn [block_lines rblock_ok app] in *.
+  - (* a cue block *)
+    cbn [read_cues]. destruct bs as [|b2 bs].
+    + rewrite run_cue; [|assumption|left; reflexivity|exact L].
+      destruct (get_or_make_region _ _) as [rg ri]. cbv zeta.
+      destruct (rc_lines c); [reflexivity|].
+      destruct (parse_cue_text _ true _); reflexivity.
+    + rewrite run_cue; [|assumption|right; reflexivity|exact L].
+      destruct (get_or_make_region _ _) as [rg ri]. cbv zeta.
+      destruct (rc_lines c).
+      * rewrite IH; [reflexivity|discriminate|assumption|reflexivity].
+      * destruct (parse_cue_text _ true _) as [ch|e]; [|reflexivity].
+        rewrite IH; [reflexivity|discriminate|assumption|reflexivity].
+  - (* a block to skip: nothing changes *)
+    destruct Hb as [_ Hok]. destruct bs as [|b2 bs].
+    + rewrite run_skip; [|exact Hok|left; reflexivity|exact L]. reflexivity.
+    + rewrite run_skip; [|exact Hok|right; reflexivity|exact L]. cbn [after_block].
+      apply IH; [discriminate|assumption|exact L].
+Qed.
+
+Lemma file_items_b hdr bs :
+  map Some (file_lines_b hdr bs) ++ [None] =
+  Some (nl (s_WEBVTT ++ hdr)) :: match bs with [] => [None] | _ => Some [10] :: items_of_b bs end.
+Proof.
+  unfold file_lines_b. cbn [map app]. f_equal.
+  induction bs as [|b bs IH]; [reflexivity|].
+  cbn [flat_map map app items_of_b]. f_equal. rewrite map_app, <- app_assoc. f_equal.
+  destruct bs as [|b2 bs]; [reflexivity|]. exact IH.
+Qed.
+
+Lemma skip_lines_line_ok : forall ls, skip_lines_ok ls = true -> forallb line_ok ls = true.
+Proof.
+  induction ls as [|l ls IH]; intros H; [reflexivity|]. cbn [skip_lines_ok] in H. apply andb_true_iff in H as [Hl H].
+  cbn [forallb]. rewrite Hl. destruct (note_or_style l); [exact H|]. apply andb_true_iff in H as [_ H]. apply IH. exact H.
+Qed.
+Lemma block_lines_nl b : rblock_ok b -> Forall nl_line (block_lines b).
+Proof.
+  destruct b as [c|ls]; cbn [rblock_ok block_lines]; [apply cue_lines_nl|]. intros [_ H].
+  apply skip_lines_line_ok in H. induction ls as [|l ls IH]; [constructor|].
+  cbn [forallb] in H. apply andb_true_iff in H as [H1 H2]. cbn [map]. constructor; [|apply IH; exact H2].
+  exists l. split; [reflexivity|]. unfold line_ok in H1. apply andb_true_iff in H1 as [H1 _]. exact H1.
+Qed.
+Lemma file_lines_b_nl hdr bs : no_lf hdr = true -> Forall rblock_ok bs -> Forall nl_line (file_lines_b hdr bs).
+Proof.
+  intros Hh W. unfold file_lines_b. constructor.
+  - eexists. split; [reflexivity|]. apply no_lf_app; [reflexivity|exact Hh].
+  - induction W as [|b bs Hb _ IH]; [constructor|]. cbn [flat_map].
+    constructor; [exists []; split; reflexivity|]. apply Forall_app; split; [apply block_lines_nl; exact Hb|exact IH].
+Qed.
+
+(* NOTE / STYLE / REGION blocks are skipped: a file of cue blocks and blocks to skip, in any order, reads exactly as
+   the file of its cue blocks *)
+Theorem file_blocks hdr bs : no_lf hdr = true -> Forall rblock_ok bs ->
+  to_model (file_text_b hdr bs) = read_cues (cues_of_blocks bs) [] [].
+Proof.
+  intros Hh W. unfold to_model, file_text_b.
+  rewrite readlines_nl_lines by (apply file_lines_b_nl; assumption).
+  rewrite file_items_b. cbn [run_lines rs_state].
+  destruct bs as [|b bs]; [reflexivity|].
+  cbn [run_lines rs_state set_state]. change (looking [10] _) with (mkR LLooking [] [] None false None).
+  apply (run_blocks (b :: bs) (mkR LLooking [] [] None false None)); [discriminate|exact W|reflexivity].
+Qed.
+Corollary skipped_blocks_invisible hdr bs : no_lf hdr = true -> Forall rblock_ok bs ->
+  to_model (file_text_b hdr bs) = to_model (file_text hdr (cues_of_blocks bs)).
+Proof.
+  intros Hh W. rewrite file_blocks by assumption. rewrite file_cues; [reflexivity|exact Hh|].
+  induction W as [|b bs Hb _ IH]; [constructor|]. destruct b; cbn [cues_of_blocks flat_map app]; [constructor; assumption|exact IH].
+Qed.
+
+(* the three kinds of block the WebVTT syntax defines, with ANY body lines *)
+Lemma note_block_ok first body : line_ok (s_NOTE_ ++ first) = true -> forallb line_ok body = true ->
+  rblock_ok (RSkip ((s_NOTE_ ++ first) :: body)).
+Proof.
+  intros H1 H2. split; [discriminate|]. cbn [skip_lines_ok]. rewrite H1.
+  replace (note_or_style (s_NOTE_ ++ first)) with true by reflexivity. exact H2.
+Qed.
+Lemma style_block_ok first body : line_ok (s_STYLE ++ first) = true -> forallb line_ok body = true ->
+  rblock_ok (RSkip ((s_STYLE ++ first) :: body)).
+Proof.
+  intros H1 H2. split; [discriminate|]. cbn [skip_lines_ok]. rewrite H1.
+  assert (E : note_or_style (s_STYLE ++ first) = true).
+  { unfold note_or_style. replace (starts_with s_STYLE (nl (s_STYLE ++ first))) with true by reflexivity. apply orb_true_r. }
+  rewrite E. exact H2.
+Qed.
+Definition s_REGION : text := [82;69;71;73;79;78].
+Lemma region_block_ok body : forallb (fun l => line_ok l && negb (note_or_style l) && negb (contains s_arrow (nl l))) body = true ->
+  rblock_ok (RSkip (s_REGION :: body)).
+Proof.
+  intros H. split; [discriminate|]. cbn [skip_lines_ok]. replace (line_ok s_REGION) with true by reflexivity.
+  replace (note_or_style s_REGION) with false by reflexivity. replace (contains s_arrow (nl s_REGION)) with false by reflexivity.
+  cbn [negb andb]. induction body as [|l body IH]; [reflexivity|].
+  cbn [forallb] in H. apply andb_true_iff in H as [Hl H]. apply andb_true_iff in Hl as [Hl Ha]. apply andb_true_iff in Hl as [Hl Hn].
+  apply negb_true_iff in Hn. cbn [skip_lines_ok]. rewrite Hl, Hn, Ha. cbn [andb]. apply IH. exact H.
+Qed.
+
+Example blocks_example :
+  Forall rblock_ok
+    [RSkip [[78;79;84;69;32;97]; [48;48;58;48;49;46;48;48;48;32;45;45;62;32;120]];       (* NOTE a / 00:01.000 --> x *)
+     RCue (mkRcue None (mkTs None 0 1 0) (mkTs None 0 2 0) [] [[97]]);
+     RSkip [[83;84;89;76;69]; [58;58;99;117;101;32;123;125]];                           (* STYLE / ::cue {} *)
+     RSkip [s_REGION; [105;100;58;102;114;101;100]];                                    (* REGION / id:fred *)
+     RCue (mkRcue (Some [105;100]) (mkTs None 0 3 0) (mkTs None 0 4 0) [] [[98]])].
+Proof.
+  repeat constructor; cbn; try lia; try discriminate; try reflexivity; unfold digit_ok; try lia.
+Qed.
+
+(* ================================================================ region sharing over a file
+   the paragraphs of a file whose cues all have a payload carry the region indices `assign` computes, hence
+   (region_sharing_iff) two cues share a region iff their settings compute the same region value *)
+Lemma read_cues_assign : forall cs rs ps rs' ps', Forall (fun c => rc_lines c <> []) cs ->
+  read_cues cs rs ps = OkDoc rs' ps' ->
+  exists qs, ps' = ps ++ qs /\ assign rs (map rc_settings cs) = (rs', map pa_region qs).
+Proof.
+  induction cs as [|c cs IH]; intros rs ps rs' ps' Hp H; cbn [read_cues map assign] in *.
+  - inversion H; subst. exists []. rewrite app_nil_r. split; reflexivity.
+  - inversion Hp as [|? ? Hc Hcs]; subst.
+    destruct (get_or_make_region rs (rc_settings c)) as [rs1 i] eqn:G.
+    destruct (rc_lines c) as [|l1 ls] eqn:El; [congruence|].
+    destruct (parse_cue_text _ true _) as [ch|e]; [|discriminate].
+    destruct (IH _ _ _ _ Hcs H) as (qs & -> & A). rewrite A.
+    eexists (_ :: qs). rewrite <- app_assoc. split; reflexivity.
+Qed.
+Theorem cues_share_region_iff : forall cs rs ps a b ca cb pa pb, Forall (fun c => rc_lines c <> []) cs ->
+  read_cues cs [] [] = OkDoc rs ps ->
+  nth_error cs a = Some ca -> nth_error cs b = Some cb -> nth_error ps a = Some pa -> nth_error ps b = Some pb ->
+  (pa_region pa = pa_region pb <->
+   region_eqb (compute_region (rc_settings ca)) (compute_region (rc_settings cb)) = true).
+Proof.
+  intros cs rs ps a b ca cb pa pb Hp H Ha Hb Hpa Hpb.
+  destruct (read_cues_assign _ _ _ _ _ Hp H) as (qs & E & A). cbn [app] in E. subst qs.
+  eapply region_sharing_iff; [exact A| | | |].
+  - rewrite nth_error_map, Ha. reflexivity.
+  - rewrite nth_error_map, Hb. reflexivity.
+  - rewrite nth_error_map, Hpa. reflexivity.
+  - rewrite nth_error_map, Hpb. reflexivity.
 Qed.
 
 (* when the payload lines neither begin nor end with CR/LF and contain no literal backslash-n-backslash-r, the
